@@ -118,7 +118,11 @@ func (m *Model) PullChildren(ctx context.Context, opts ...resource.ReadOption) <
 	go func() {
 		defer close(out)
 		for change := range changes {
-			out <- childrenChangeToProto(change)
+			select {
+			case out <- childrenChangeToProto(change):
+			case <-ctx.Done():
+				return
+			}
 		}
 	}()
 
